@@ -20,6 +20,8 @@ func checkC15(r *Report, p *Program) {
 	r15_4(r, p)
 	r03_3(r, p) // R03.3 id kept: wire confinement applies to Related through the same Convert
 	r03_6(r, p)
+	// trigger side: related-object events resolve the rules the same way the listing side does (shared with C14)
+	r14_4(r, p)
 	// groups never wiped between rules
 	for _, key := range []string{"controller/common/api/v2.UniformObjectMap.InitGroup"} {
 		if f := fn(r, p, "R15.2", key); f != nil {
